@@ -151,6 +151,9 @@ impl Shim {
                 std::process::exit(3);
             }
             "garbage" => self.reply("@#$% not an s-expression ]]"),
+            // garbage that closes more parentheses than it opens; the solver stays alive
+            "extraclose" => self.reply(")"),
+            "tailclose" => self.reply("unsat)"),
             "wrongsat" => self.reply("satisfiable"),
             _ => self.reply("(error \"unknown fault kind\")"),
         }
